@@ -1107,20 +1107,28 @@ def cases(tier, rng, escalate):
         [[0, 0, 0, []], [0, 1, 0, [5]], [2, 1], [3, 0, 1], [0, 2, 0, [0]], [3, 2, 1]],
         [[0, 0, 0, []], [0, 1, 0, [0]], [3, 0, 1]],
         [[0, 0, 0, []], [0, 1, 2, []], [3, 0, 1], [1, 1]],
+        # two waiters of the same kind on one lock (>= 3 threads contending): whichever the lock wakes first is bound to
+        # the granted call
+        [[0, 0, 0, []], [0, 1, 0, []], [0, 2, 0, []], [3, 0, 1], [1, 1], [3, 1, 1], [1, 2], [3, 2, 1]],
+        [[0, 0, 0, []], [0, 1, 0, [5]], [0, 2, 0, [5]], [0, 3, 1, [0]], [3, 3, 1], [3, 0, 0], [1, 1], [3, 1, 1], [1, 2], [3, 2, 0],
+         [0, 4, 0, [0]], [3, 4, 1]],
+        [[0, 0, 1, []], [0, 1, 1, []], [0, 2, 1, []], [0, 3, 0, [5]], [3, 0, 1], [1, 1], [3, 3, 1], [3, 1, 0], [1, 2], [3, 2, 1]],
     ]
     for kind in (0, 1):
         for h in fixed:
-            yield dict(input=[9, h, kind], tags=_tags(9, None, ["threads", "tcp" if kind == 0 else "udp", "fixed"]), nontrivial=True)
+            yield dict(input=[9, h, kind], tags=_tags(9, None, ["threads", "tcp" if kind == 0 else "udp", "fixed",
+                       "two-waiters" if sum(1 for lb in h if lb[0] == 1) >= 2 else "le-one-waiter"]), nontrivial=True)
     n9 = 120 if thorough else 24
     seen = set()
     for _ in range(n9):
-        h = c11_threads.gen_history(rng, 4)
+        h = c11_threads.gen_history(rng, 5)
         key = repr(h)
         if not h or key in seen:
             continue
         seen.add(key)
         yield dict(input=[9, h, rng.choice([0, 1])], tags=_tags(9, None, ["threads", "random",
-                   "contended" if any(lb[0] in (1, 2) for lb in h) else "uncontended"]), nontrivial=len(h) > 2)
+                   "contended" if any(lb[0] in (1, 2) for lb in h) else "uncontended",
+                   "two-waiters" if sum(1 for lb in h if lb[0] == 1) >= 2 else "le-one-waiter"]), nontrivial=len(h) > 2)
     # ---- op 8: real loopback sockets / real TLS, outcome + packet digests only
     n8 = 60 if thorough else 24
     for i in range(n8):
